@@ -168,12 +168,15 @@ theorem pdffit_on_xyz (d : XyzS) (hr : reprXyz d = true) (hk : xyzKwFree d = tru
     parsePdffit (writeXyz d) = .error .sfe :=
   parsePdffit_noCell _ (xyz_noCell d hr hk)
 
-/-- non-vacuity, and the hypothesis is needed: with the title `cell 1 1 1` the DISCUS model (like the real reader)
-accepts the XYZ text as a structure without atoms -/
+/-- non-vacuity, and a hypothesis of this kind is needed: XYZ text of two atoms named `cell` (at 1 1 1) and `atoms` has a
+`cell` record and an `atoms` record, and the DISCUS model (like the real reader) accepts it as a structure without atoms.
+(Before the repair 56ab7f4 of the library the `atoms` record was not required and the title `cell 1 1 1` alone was enough -
+found by the cross stream of harness/c12.py; with the repair the title alone is rejected, second example.) -/
 example : reprXyz ⟨"NaCl".toList, [⟨"Na".toList, 0, 1/2, -1/3⟩]⟩ = true ∧
     xyzKwFree ⟨"NaCl".toList, [⟨"Na".toList, 0, 1/2, -1/3⟩]⟩ = true := by decide
-example : (match parseDiscus (writeXyz ⟨"cell 1 1 1".toList, [⟨"C".toList, 0, 0, 0⟩]⟩) with
+example : (match parseDiscus (writeXyz ⟨"t".toList, [⟨"cell".toList, 1, 1, 1⟩, ⟨"atoms".toList, 0, 0, 0⟩]⟩) with
     | .ok r => r.atoms.isEmpty | .error _ => false) = true := by decide +kernel
+example : parseDiscus (writeXyz ⟨"cell 1 1 1".toList, [⟨"C".toList, 0, 0, 0⟩]⟩) = .error .sfe := by decide +kernel
 
 /-! ## text written as raw XYZ -/
 
